@@ -450,7 +450,12 @@ def _get_comp_cls_media(comp_cls: Type["Component"]) -> Any:
         # Now, if we got here, then either all the bases of the current class have had their `media` resolved,
         # or the current class has NO bases. So now we construct the `media` for the current class.
         media_cls = getattr(curr_cls, "media_class", MediaCls)
-        # NOTE: If the class is a component and and it was not yet resolved, accessing `Media` should resolve it.
+        # If the class is a component and it was not yet resolved, resolve it BEFORE reading `Media.js/css`,
+        # so that the paths relative to the component file are the same no matter whether `media` or
+        # `template` / `js` / `css` is accessed first.
+        comp_media = curr_cls.__dict__.get("_component_media", None)
+        if comp_media is not None and not comp_media.resolved:
+            _resolve_media(curr_cls, comp_media)
         media_js = getattr(media_input, "js", [])
         media_css = getattr(media_input, "css", {})
         media: MediaCls = media_cls(js=media_js, css=media_css)
